@@ -1,0 +1,52 @@
+// Copyright 2024 Ross Light
+//
+// Licensed under the Apache License, Version 2.0 (the "License");
+// you may not use this file except in compliance with the License.
+// You may obtain a copy of the License at
+//
+//		 https://www.apache.org/licenses/LICENSE-2.0
+//
+// Unless required by applicable law or agreed to in writing, software
+// distributed under the License is distributed on an "AS IS" BASIS,
+// WITHOUT WARRANTIES OR CONDITIONS OF ANY KIND, either express or implied.
+// See the License for the specific language governing permissions and
+// limitations under the License.
+//
+// SPDX-License-Identifier: Apache-2.0
+
+//go:build verif
+
+package format
+
+import "io"
+
+// This file is only compiled with the "verif" build tag.
+// It exposes the unexported indenting writer
+// so that an external conformance harness can drive it directly.
+// It adds no behavior.
+
+// VerifWriter wraps the formatter's indenting writer.
+type VerifWriter struct {
+	fw *formatWriter
+}
+
+// NewVerifWriter exposes newFormatWriter.
+func NewVerifWriter(w io.Writer) *VerifWriter { return &VerifWriter{fw: newFormatWriter(w)} }
+
+// Push exposes formatWriter.push.
+func (v *VerifWriter) Push(indent string) { v.fw.push(indent) }
+
+// Pop exposes formatWriter.pop.
+func (v *VerifWriter) Pop() { v.fw.pop() }
+
+// S exposes formatWriter.s.
+func (v *VerifWriter) S(s string) { v.fw.s(s) }
+
+// B exposes formatWriter.b.
+func (v *VerifWriter) B(p []byte) { v.fw.b(p) }
+
+// Err returns the writer's sticky error.
+func (v *VerifWriter) Err() error { return v.fw.err }
+
+// HasWritten returns whether the writer has written anything.
+func (v *VerifWriter) HasWritten() bool { return v.fw.hasWritten }
